@@ -18,6 +18,9 @@ type C11Params struct {
 	Srv2  *EpSpec  `json:"s2,omitempty"`
 	Rules NetRules `json:"rules"`
 	Twist string   `json:"twist"`
+	// FirstHello (DTLS 1.2): the cookie-less first ClientHello is rewritten in transit so that it
+	// offers everything the server would accept (scn_c11first.go); the second one is genuine
+	FirstHello bool `json:"first_hello,omitempty"`
 }
 
 func c11Counts(tier string) (int, int) {
@@ -145,6 +148,9 @@ func c11Gen(r *rand.Rand, tier string, idx int) any {
 		}
 	}
 	_ = core
+	if p.C.MaxVer == 12 && p.Srv.MaxVer == 12 && r.IntN(3) == 0 {
+		p.FirstHello = true
+	}
 	if r.IntN(5) == 0 {
 		p.Rules = NetRules{DropPm: 30 + r.IntN(150), DupPm: r.IntN(100), FaultsUntilIdx: 3 + r.IntN(10)}
 	}
@@ -498,6 +504,19 @@ func c11Run(rc *RunCtx, params any) {
 			s.Probe("config-rejected")
 
 			return true
+		}
+		if p.FirstHello && c.MaxVer == 12 && sv.MaxVer == 12 && !sv.SkipHelloVerify {
+			n.Rewrite = func(e *Emission) []byte {
+				if e.Ep != cname {
+					return e.Data
+				}
+				out, changed := rewriteUnfragmented(e.Data, HTClientHello, func(b []byte) []byte { return permissiveFirstHello(b, sv) })
+				if changed > 0 {
+					s.Fault("first-hello-made-permissive")
+				}
+
+				return out
+			}
 		}
 		pair.StartHandshakes(5 * time.Minute)
 		s.Run(pair.BothDone, 6*time.Minute)
